@@ -319,7 +319,9 @@ def _top_stmts(body):
     blk = T.peel(body)
     while blk.get("k") == "blockexpr":
         blk = blk["block"]
-    return [T.peel(st["e"]) if st.get("k") == "expr" else st for st in blk.get("stmts", [])] + ([T.peel(blk["tail"])] if blk.get("tail") is not None else [])
+    # a `let` whose local is read through at its uses (sa/forward.py) is not a step of the computation
+    return [T.peel(st["e"]) if st.get("k") == "expr" else st for st in blk.get("stmts", []) if not st.get("forwarded")] \
+        + ([T.peel(blk["tail"])] if blk.get("tail") is not None else [])
 
 
 def grp_removed_len(ctx):
